@@ -6,7 +6,7 @@
 // circuit client transport (wired as p2p/protocol/circuitv2/relay/relay_test.go does) behind a
 // wrapper that records the addresses handed to Dial and delegates. world_test.go holds the code.
 //
-// Layer A (4 runs of 5): the initial connections A-B are drawn (limited only, none, direct only,
+// Layer A: the initial connections A-B are drawn (limited only, none, direct only,
 // both); 1-4 caller tasks on A call Swarm.NewStream / Swarm.DialPeer / Host.NewStream /
 // Host.Connect / Conn.NewStream with every subset of {WithAllowLimitedConn, WithForceDirectDial,
 // WithNoDial}, own deadline, optional WithDialPeerTimeout and an independent cancellation instant;
@@ -18,7 +18,14 @@
 // reading, as C06 does). After all callers left, direct connections arrive once more (outbound,
 // then inbound), everything is closed and the goroutine residue is inspected.
 //
-// Layer B (1 run of 5): A and B on public addresses behind simulated stateful firewalls
+// Race stratum of layer A (2 runs of 11; layer A proper 7 of 11, layer B 2 of 11): 3-6 rounds per run; in each the
+// peer is reachable over the limited connection only and 1-4 waiter tasks call Swarm.NewStream
+// without allow-limited at the very instant a direct connection (B dials A / A dials B) is admitted
+// by A's gater, i.e. just before the swarm registers it, with drawn numbers of extra scheduling
+// points in the gater, the dialer and the waiters, so that the registration lands around the
+// waiter's check-then-register window; the direct connection then stays until the waiters returned.
+//
+// Layer B: A and B on public addresses behind simulated stateful firewalls
 // (filtered: an inbound connection is accepted only from an IP the host dialled within the last
 // 2 s; open; symmetric: never), optional link latency, real hole punching services on both
 // (2/3 of the runs: built by the harness with holepunch.NewService around a host wrapper that
@@ -97,9 +104,9 @@ func TestSim(t *testing.T) { common.Main(t, common.Harness{Property: "C12", Run:
 func run(t *testing.T, tape *simrt.Tape) *common.Outcome {
 	g := simrt.Gen{S: tape.G}
 	// stratum first (0 = layer A, the main stratum)
-	layerB := g.Weighted(4, 1) == 1
+	mode := g.Weighted(7, 2, 2)
 	if l := os.Getenv("C12_LAYER"); l != "" { // development aid only (never set by ./check): pin the stratum
-		layerB = l == "B"
+		mode = map[string]int{"A": modeA, "B": modeB, "R": modeRace}[l]
 	}
-	return runWorld(t, tape, g, layerB)
+	return runWorld(t, tape, g, mode)
 }
